@@ -2734,6 +2734,8 @@ impl ModuleGraph {
     &'a self,
     specifier: &'a ModuleSpecifier,
   ) -> &'a ModuleSpecifier {
+    // only an initial capacity: the builder already bounds chains by the
+    // loader's `max_redirects()` and cycles are cut by `seen` below
     const MAX_REDIRECTS: usize = 10;
     let mut redirected_specifier = specifier;
     if let Some(specifier) = self.redirects.get(specifier) {
@@ -2750,12 +2752,6 @@ impl ModuleGraph {
           break;
         }
         redirected_specifier = specifier;
-        if seen.len() >= MAX_REDIRECTS {
-          log::warn!(
-            "An excessive number of redirections detected.\n  Original specifier: {specifier}"
-          );
-          break;
-        }
       }
     }
     redirected_specifier
